@@ -141,13 +141,18 @@ func c07Harvest(c *Ctx) map[string][]c07Seed {
 	return seeds
 }
 
-// extremes for a little-/big-endian field of width w at position pos
-func c07FieldExtremes(b []byte, maxPos int) [][]byte {
+// length/offset/count fields driven to their extremes: every aligned or unaligned 2- and 4-byte window in
+// the first maxPos bytes is overwritten; pass 0 uses all-ones and zero, pass 1 the values 1 and max-1 in
+// both byte orders
+func c07FieldExtremes(b []byte, maxPos int, pass int) [][]byte {
 	var out [][]byte
 	vals := func(w int) [][]byte {
 		max := make([]byte, w)
 		for i := range max {
 			max[i] = 0xff
+		}
+		if pass == 0 {
+			return [][]byte{max, make([]byte, w)}
 		}
 		one := make([]byte, w)
 		one[0] = 1
@@ -157,10 +162,13 @@ func c07FieldExtremes(b []byte, maxPos int) [][]byte {
 		m1[0] = 0xfe
 		m1BE := append([]byte{}, max...)
 		m1BE[w-1] = 0xfe
-		return [][]byte{make([]byte, w), one, oneBE, m1, m1BE, max}
+		return [][]byte{one, oneBE, m1, m1BE}
 	}
-	for _, w := range []int{2, 4} {
-		for pos := 0; pos+w <= len(b) && pos < maxPos; pos++ {
+	for pos := 0; pos < len(b) && pos < maxPos; pos++ {
+		for _, w := range []int{2, 4} {
+			if pos+w > len(b) {
+				continue
+			}
 			for _, v := range vals(w) {
 				m := exact(b)
 				copy(m[pos:], v)
@@ -181,7 +189,7 @@ func genC07(c *Ctx) {
 	sort.Strings(classes)
 	nSeeds := 0
 	perEntry := map[string]int{}
-	budget := c.N(600, 6000) // malformed inputs per class
+	budget := c.N(500, 5000) // malformed inputs per SMB structure in the second stream
 	run := func(fn string, args []Val, idx int, m []byte) {
 		a2 := append([]Val{}, args...)
 		a2[idx] = B(m)
@@ -197,9 +205,36 @@ func genC07(c *Ctx) {
 		}
 		fn := ss[0].fn
 		idx := c07Decoders[fn]
+		budget := c.N(3000, 40000)
+		if strings.HasPrefix(fn, "smb.unmarshal") {
+			budget = c.N(500, 5000) // 115 structures x 2 classes; they get a second stream below
+		}
 		used := 0
 		// smallest seeds first: their malformed streams are enumerated completely
 		sort.SliceStable(ss, func(i, j int) bool { return len(ss[i].args[idx].B) < len(ss[j].args[idx].B) })
+		// ... but the smallest valid encodings are the degenerate ones (empty optional parts): enumerate
+		// completely two small, two median and two of the largest (up to 512 bytes) seeds
+		if len(ss) > 6 {
+			hi := len(ss) - 1
+			for hi > 0 && len(ss[hi].args[idx].B) > 512 {
+				hi--
+			}
+			pick := []int{0, 1, len(ss) / 2, len(ss)/2 + 1, hi - 1, hi}
+			seenIdx := map[int]bool{}
+			var front, rest []c07Seed
+			for _, k := range pick {
+				if k >= 0 && k < len(ss) && !seenIdx[k] {
+					seenIdx[k] = true
+					front = append(front, ss[k])
+				}
+			}
+			for k := range ss {
+				if !seenIdx[k] {
+					rest = append(rest, ss[k])
+				}
+			}
+			ss = append(front, rest...)
+		}
 		for si, s := range ss {
 			if used >= budget {
 				break
@@ -208,9 +243,13 @@ func genC07(c *Ctx) {
 			run(fn, s.args, idx, b)
 			var ms [][]byte
 			maxPos := 96
-			if si < 6 || len(b) <= 64 {
-				ms = append(ms, Malformed(b, maxPos)...)
-				ms = append(ms, c07FieldExtremes(b, 64)...)
+			if si < 6 {
+				// length/offset/count fields driven to their extremes first: these are the inputs a
+				// truncated budget must not drop
+				ms = append(ms, c07FieldExtremes(b, 64, 0)...)
+				ms = append(ms, Truncations(b)...)
+				ms = append(ms, c07FieldExtremes(b, 64, 1)...)
+				ms = append(ms, Corruptions(b, maxPos)...)
 			} else {
 				// sampled: a few truncations and corruptions
 				for k := 0; k < 12; k++ {
@@ -228,12 +267,14 @@ func genC07(c *Ctx) {
 				ms = append(ms, cat(b[:r.Intn(len(b)+1)], o[r.Intn(len(o)+1):]))
 			}
 			ms = append(ms, cat(b, r.Bytes(1+r.Intn(8))))
+			perSeed := 0
 			for _, m := range ms {
-				if used >= budget {
+				if used >= budget || (si < 6 && perSeed >= budget/6) {
 					break
 				}
 				run(fn, s.args, idx, m)
 				used++
+				perSeed++
 			}
 		}
 		// a few purely random inputs and the empty input
@@ -263,7 +304,9 @@ func genC07(c *Ctx) {
 			if len(enc) > 2048 {
 				continue
 			}
-			ms := append(Malformed(enc, 96), c07FieldExtremes(enc, 64)...)
+			ms := append(c07FieldExtremes(enc, 64, 0), Truncations(enc)...)
+			ms = append(ms, c07FieldExtremes(enc, 64, 1)...)
+			ms = append(ms, Corruptions(enc, 96)...)
 			ms = append(ms, cat(enc, r.Bytes(1+r.Intn(8))))
 			for _, m := range ms {
 				if used >= budget {
